@@ -25,7 +25,7 @@ type Job struct {
 	Label   string   // human-readable instance (grammar id, variant set, ...)
 	Need    []string // reachability witnesses that must be hit on some path
 	MaxPaths int
-	Native  string // key of the native replay binary for this job's package ("" = PkgPath)
+	NoSamples bool // do not keep path samples for native validation
 	Meta    map[string]any
 }
 
@@ -36,6 +36,7 @@ type JobResult struct {
 }
 
 var transcriptDir = os.Getenv("VERIF_TRANSCRIPT")
+var traceJobs = os.Getenv("VERIF_TRACEJOBS") != ""
 
 // interpretSet decides which packages are executed from SSA.
 func interpretDefault(path string) bool {
@@ -103,7 +104,13 @@ func RunJobs(l *Loaded, jobs []*Job, workers int, cfg symx.Config, deadline time
 					return
 				}
 				j := jobs[i]
+				if traceJobs {
+					fmt.Fprintf(os.Stderr, "start %s %s%v\n", j.Label, j.Entry, j.Args)
+				}
 				results[i] = runJob(eng, l, j)
+				if traceJobs {
+					fmt.Fprintf(os.Stderr, "done  %s %s%v\n", j.Label, j.Entry, j.Args)
+				}
 			}
 		}()
 	}
@@ -139,6 +146,7 @@ func runJob(eng *symx.Engine, l *Loaded, j *Job) (jr *JobResult) {
 	} else {
 		eng.SetMaxPaths(0)
 	}
+	eng.SetValidate(!j.NoSamples)
 	jr.Res = eng.Explore(fn, args)
 	return
 }
